@@ -504,7 +504,7 @@ func phaseWire(cr *childResult, seed uint64, quick bool) {
 		o.expMu.Lock()
 		seenEx := map[string]bool{}
 		for _, ex := range o.expects {
-			coq := fmt.Sprintf("ExpectCase %s %s %d %d %s", hk.CoqBool(ex.sent100), hk.CoqBool(ex.respClose), ex.announced, ex.received, hk.CoqBool(ex.reused))
+			coq := fmt.Sprintf("ExpectCase %s %s %s %s %s", hk.CoqBool(ex.sent100), hk.CoqBool(ex.respClose), coqBigNat(ex.announced), coqBigNat(ex.received), hk.CoqBool(ex.reused))
 			cr.count("wire.expect=" + ex.kind)
 			if !seenEx[coq] {
 				seenEx[coq] = true
